@@ -22,6 +22,13 @@ RV_FIXED = [
     "lui x1, 4\nsw x1, 0(x1)\nlh x2, 0(x1)\nsb x2, 3(x1)\nlw x3, 0(x1)\nbeq x3, x3, 8\naddi x4, x0, 1\naddi x5, x0, 2\n",
 ]
 
+RV_UNICODE = [
+    ".data\nmsg: .string \"price: 5 \u20ac\"\n.text\nla a0, msg\naddi a7, zero, 4\necall\n",
+    ".data\nq: .string \"\u201cquoted\u201d\"\n.text\nnop\n",
+    "# commentaire \u00e9\u00e8 \u65e5\u672c\naddi x1, x0, 1  # \U0001f600\n",
+    ".data\nk: .string \"\u65e5\u672c\u8a9e\"\nw: .word 1\n.text\nlw x1, w\n",
+]
+
 RV_BAD = [
     "addi x1, x0\n",
     ".data\nv: .word 1\n.text\nlw x1, w\n",
@@ -45,6 +52,7 @@ TOK = [
     "\"", "\"abc", "abc\"", "#", "label:", "label", "li", "la", "nop", "ecall", "ebreak", "fence", "9" * 30,
     "9" * 4400, "0x" + "f" * 30, "0b" + "1" * 70, "-0", "-0x1", "\t", "  ", "lw", "sw", "x1", "a0", "4(x1)",
     "v[1]", "v", "v[007]", "loop", "loop+0x", "loop+0x8", "007", "-08", "0008(x1)", "0o7", "1_000", "٣",
+    "\u20ac", "\"\u20ac\"", "s: .string \"\u4e2d\"", "\u00e9", "\U0001f600", "# \u20ac",
 ]
 
 TOY_TOK = ["0", "00", "09", "0x", "0xG", "4096", "9" * 4400, "0x" + "F" * 20, "-1", "lbl", "lbl:", ":", ".data",
@@ -59,8 +67,10 @@ BR = ["beq", "bne", "blt", "bge", "bltu", "bgeu"]
 def gen_riscv(r):
     """A random, usually terminating RISC-V text."""
     k = r.random()
-    if k < 0.30:
+    if k < 0.27:
         return r.choice(RV_FIXED)
+    if k < 0.31:
+        return r.choice(RV_UNICODE)
     lines = []
     data = []
     has_data = r.random() < 0.5
@@ -69,7 +79,7 @@ def gen_riscv(r):
         for i in range(nvars):
             t = r.choice(["word", "half", "byte", "string", "zero"])
             if t == "string":
-                data.append(f'v{i}: .string "{r.choice(["hi", "Hello, World!", "a b", ""])}"')
+                data.append(f'v{i}: .string "{r.choice(["hi", "Hello, World!", "a b", "", "caf\u00e9", "5 \u20ac", "\u201cq\u201d", "\u65e5\u672c", "ok \U0001f600", "tab\\t"])}"')
             elif t == "zero":
                 data.append(f"v{i}: .zero {r.randint(1, 3)}")
             else:
@@ -140,6 +150,27 @@ def gen_riscv(r):
     else:
         lines = ([".text"] if r.random() < 0.2 else []) + body
     return "\n".join(lines) + ("\n" if r.random() < 0.7 else "")
+
+
+ODD_LITERALS = ["09", "007", "-08", "00", "0" * 10, "9" * 4400, "1" * 4301, "-" + "9" * 4400, "0x" + "f" * 5000,
+                "0b" + "1" * 5000, "-0", "0x", "0b", "4294967296", "-2147483649", "99999999999999999999", "0x100000000"]
+_LIT = None
+
+
+def mutate_literal(r, text):
+    """Replace one numeric literal of a (valid) program by an odd one: aims at every place where the
+    assembler converts a literal after tokenising (.byte/.half/.word/.zero values, name[i] indices, li,
+    immediates, offsets, CSR numbers, label+0x offsets)."""
+    global _LIT
+    import re
+
+    if _LIT is None:
+        _LIT = re.compile(r"(?<![\w.])-?(?:0x[0-9a-fA-F]+|0b[01]+|\d+)(?![\w])")
+    spans = [m.span() for m in _LIT.finditer(text)]
+    if not spans:
+        return text
+    a, b = r.choice(spans)
+    return text[:a] + r.choice(ODD_LITERALS) + text[b:]
 
 
 def mutate(r, text, toks):
